@@ -81,11 +81,22 @@ Fixpoint byte_skip (k : N) (s : str) : option str :=
 Definition usize_max : N := 2 ^ 64 - 1.
 Definition u32_max : N := 2 ^ 32 - 1.
 
+(* truncation toward zero of a finite double; the value of F64.f_trunc_Z, computed by
+   shifting (Proofs: trunc_Z_eq) *)
+Definition trunc_Z (x : f64) : option Z :=
+  match x with
+  | S754_zero _ => Some 0%Z
+  | S754_finite s m e =>
+      let v := if (0 <=? e)%Z then Z.shiftl (Z.pos m) e else Z.shiftr (Z.pos m) (- e) in
+      Some (if s then (- v)%Z else v)
+  | _ => None
+  end.
+
 (* Rust `x as uN`: NaN -> 0, negative -> 0, too large -> MAX, else truncation *)
 Definition sat_cast (maxv : N) (x : f64) : N :=
   match x with
   | S754_finite false _ _ =>
-      match f_trunc_Z x with
+      match trunc_Z x with
       | Some z => N.min (Z.to_N z) maxv
       | None => 0
       end
@@ -98,7 +109,7 @@ Definition f_trunc (x : f64) : f64 :=
   match x with
   | S754_finite s m e =>
       if (0 <=? e)%Z then x
-      else match f_trunc_Z x with
+      else match trunc_Z x with
            | Some z => if (z =? 0)%Z then S754_zero s else f_of_Z z
            | None => x
            end
